@@ -366,6 +366,8 @@ func (r *c04rhs) goStr() string {
 			return "append(" + r.E.goStr() + ")"
 		}
 		return "append(" + r.E.goStr() + ", " + list(r.L) + ")"
+	case "appendslice":
+		return "append(" + r.E.goStr() + ", " + r.E2.goStr() + "...)"
 	case "slicelit":
 		return r.T.name + "{" + list(r.L) + "}"
 	case "new":
@@ -807,6 +809,8 @@ func (r *c04rhs) coq() string {
 		return "(EPure " + r.E.coqRv() + ")"
 	case "append":
 		return fmt.Sprintf("(EAppend %d %s %s %s)", c04ElemKind(r.T.elem), c04ZeroCoq(r.T.elem), r.E.coqRv(), c04CoqRvs(r.L))
+	case "appendslice":
+		return fmt.Sprintf("(EAppendSlice %d %s %s %s)", c04ElemKind(r.T.elem), c04ZeroCoq(r.T.elem), r.E.coqRv(), r.E2.coqRv())
 	case "slicelit":
 		return "(ESliceLit " + c04CoqRvs(r.L) + ")"
 	case "new":
